@@ -203,6 +203,8 @@ func main() {
 		cmdCheck(os.Args[2:])
 	case "sites":
 		cmdSites(os.Args[2:])
+	case "coverage":
+		cmdCoverage(os.Args[2:])
 	case "snapshot-names":
 		cmdSnapshotNames(os.Args[2:])
 	default:
@@ -443,5 +445,80 @@ func resolveUnproved(c *FnCtx, all, selected []*Obligation, timeoutMs int) {
 			return
 		}
 		solveBatch(c, redo, timeoutMs)
+	}
+}
+
+// cmdCoverage: per function, how many functional obligations (site/post/pre/inv.*/monitor/own.*/
+// subtype/loop.complete) exist and how many of them some property selects. Functions with a
+// body of some size and no selected functional obligation are where a change goes unnoticed.
+func cmdCoverage(args []string) {
+	fs := flag.NewFlagSet("coverage", flag.ExitOnError)
+	dir := fs.String("dir", "/repo", "repository")
+	propsPath := fs.String("props", "/verif/props/props.json", "property configuration")
+	fs.Parse(args)
+	repoDir = *dir
+	g, err := loadGen(*dir)
+	if err != nil {
+		fmt.Println("LOAD-ERROR:", err)
+		os.Exit(2)
+	}
+	props, err := loadProps(*propsPath)
+	if err != nil {
+		fmt.Println(err)
+		os.Exit(2)
+	}
+	functional := func(k string) bool {
+		switch {
+		case k == "site", k == "post", k == "pre", k == "monitor", k == "subtype", k == "loop.complete", k == "contract":
+			return true
+		case strings.HasPrefix(k, "inv."), strings.HasPrefix(k, "own."):
+			return true
+		}
+		return false
+	}
+	type row struct {
+		key            string
+		instrs, fn, sel int
+		props          map[string]bool
+	}
+	var rows []row
+	for _, fn := range g.allFuncs {
+		if !g.inScope(fn) {
+			continue
+		}
+		t, err := g.translate(fn)
+		if err != nil {
+			continue
+		}
+		r := row{key: t.key, props: map[string]bool{}}
+		for _, b := range fn.Blocks {
+			r.instrs += len(b.Instrs)
+		}
+		for _, o := range t.c.obls {
+			if !functional(o.Kind) || o.Trivial {
+				continue
+			}
+			r.fn++
+			hit := false
+			for id, pc := range props {
+				if pc.selects(o) {
+					hit = true
+					r.props[id] = true
+				}
+			}
+			if hit {
+				r.sel++
+			}
+		}
+		rows = append(rows, r)
+	}
+	sort.Slice(rows, func(i, j int) bool { return rows[i].key < rows[j].key })
+	for _, r := range rows {
+		var ps []string
+		for p := range r.props {
+			ps = append(ps, p)
+		}
+		sort.Strings(ps)
+		fmt.Printf("%4d instrs  %3d functional obligations  %3d selected  %-60s %s\n", r.instrs, r.fn, r.sel, r.key, strings.Join(ps, ","))
 	}
 }
